@@ -320,6 +320,46 @@ impl ShardInfo {
     }
 }
 
+/// Verification hooks: thin pass-throughs to private items, no logic.
+#[cfg(feature = "scylla-verif")]
+pub(crate) mod verif_hooks {
+    use super::{Shard, ShardAwarePortRange, ShardCount, ShardInfo, Sharder};
+
+    pub(crate) fn lowest_port(
+        sharder: &Sharder,
+        shard: u16,
+        range: &ShardAwarePortRange,
+    ) -> Option<u16> {
+        sharder.calculate_lowest_port_for_shard_in_range(shard, range)
+    }
+
+    pub(crate) fn draw_from_range(
+        sharder: &Sharder,
+        shard: Shard,
+        range: &ShardAwarePortRange,
+    ) -> Option<u16> {
+        sharder.draw_source_port_for_shard_from_range(shard, range)
+    }
+
+    pub(crate) fn iter_from_range(
+        sharder: &Sharder,
+        shard: Shard,
+        range: &ShardAwarePortRange,
+    ) -> impl Iterator<Item = u16> + use<> {
+        sharder.iter_source_ports_for_shard_from_range(shard, range)
+    }
+
+    pub(crate) fn shard_info_new(
+        shard: u16,
+        nr_shards: ShardCount,
+        msb_ignore: u8,
+    ) -> Option<(u16, ShardCount, u8)> {
+        ShardInfo::new(shard, nr_shards, msb_ignore)
+            .ok()
+            .map(|si| (si.shard, si.nr_shards, si.msb_ignore))
+    }
+}
+
 #[cfg(test)]
 mod tests {
     use crate::routing::{Shard, ShardAwarePortRange};
